@@ -177,6 +177,8 @@ func main() {
 			fmt.Fprintln(w, reuse(t[1:]))
 		case "BIGA":
 			fmt.Fprintln(w, biga(t[1:]))
+		case "SLIVER":
+			fmt.Fprintln(w, sliver(t[1:]))
 		case "HUGEC":
 			fmt.Fprintln(w, hugec(t[1:]))
 		case "ARRH":
@@ -190,6 +192,7 @@ func main() {
 			outs := []string{}
 			for _, ty := range order {
 				if t[1] == "six" && (ty == "int" || ty == "uint") { continue }
+				if t[1] != "six" && t[1] != "all" && t[1] != ty { continue }
 				outs = append(outs, ty+"="+runners[ty](ops))
 			}
 			fmt.Fprintln(w, strings.Join(outs, " @@ "))
